@@ -58,6 +58,18 @@ func c05Check(l *explore.Local, e *cpuEnv, b c05Block) *explore.Fail {
 				}
 			}
 		}
+		// a key press reported by the front end (cpu.OnInput) before every cycle: alone, and followed by a request
+		for j := 0; j <= b.MaxIdle+1; j++ {
+			c := base
+			c.Input = []int{j}
+			if f := try(c); f != nil {
+				return f
+			}
+			c.Inj = [][2]int{{b.MaxIdle + 2, 2}}
+			if f := try(c); f != nil {
+				return f
+			}
+		}
 	}
 	return nil
 }
@@ -65,7 +77,7 @@ func c05Check(l *explore.Local, e *cpuEnv, b c05Block) *explore.Fail {
 func init() {
 	register("C05", "model_checking", func(c *Ctx) {
 		if c.R != nil {
-			c.R.Rule = "HALT followed by every opcode (245 base with operand bytes + 256 CB-prefixed) x IME x 8 (IE, IF) combinations (nothing pending, pending-enabled, pending-not-enabled, several) x one interrupt request of every source raised before every machine cycle up to the idle bound (and none); lock-step with the reference control machine: while idle nothing may change (checked every cycle), IME=1 wake-up dispatches in 6 cycles, IME=0 wake-up resumes at the following instruction without touching IF, pending-at-HALT with IME=0 executes the following byte twice"
+			c.R.Rule = "HALT followed by every opcode (245 base with operand bytes + 256 CB-prefixed) x IME x 8 (IE, IF) combinations (nothing pending, pending-enabled, pending-not-enabled, several) x one interrupt request of every source raised before every machine cycle up to the idle bound (and none), and a key press reported by the front end (cpu.OnInput) before every such cycle, alone and followed by a request; lock-step with the reference control machine: while idle nothing may change (checked every cycle), IME=1 wake-up dispatches in 6 cycles, IME=0 wake-up resumes at the following instruction without touching IF, pending-at-HALT with IME=0 executes the following byte twice"
 			c.R.Assumptions = []string{"wake-up latency with IME=0 is not fixed by the statement (0-4 cycles accepted)", "halt bug with a CB-prefixed follower is unspecified (skipped)", "a request arriving during a dispatch is unspecified (pruned)"}
 		}
 		idle := 8
